@@ -7,7 +7,7 @@ use crate::dbexec::*;
 use crate::dbmodel::Dump;
 use crate::dbprog::*;
 use crate::simfs::{self, EvOp, Image, SimFs};
-use crate::with_db;
+use dbsim::with_db;
 use serde::{Deserialize, Serialize};
 use simcore::{Fnv, Rng};
 
